@@ -75,6 +75,47 @@ def run_one_iteration(k, shape, want_update=True, check_fixed=False):
     return ghost, vs, before, fixed_pos, dx, offsets, dims, before_fixed, g
 
 
+def second_call_system(k, shape, first_call, remark):
+    """Build, optionally run a first optimize, change marks, run optimize(fix_first_pose=False, max_iter=1) and compare the
+    system of THAT call with the spec reduced system for the marks in force at that moment."""
+    ghost = common.Ghost()
+    g, vs, es = graphs.build(k, shape, ghost)
+    dims = [POSE_C[T] for _, T, _ in shape["vertices"]]
+    cut = lambda self: _cut_chi2(self, k)
+    # first_call: None, the keyword arguments of one earlier call, or a list of (keyword arguments, re-marking) steps
+    steps = [] if first_call is None else ([(first_call, None)] if isinstance(first_call, dict) else list(first_call))
+    for kwargs, between in steps:
+        with common.counting_spsolve(k, ghost), common.patched(k.r.Graph, calc_chi2=cut):
+            g.optimize(tol=0, max_iter=1, verbose=False, **kwargs)
+        if between is not None:
+            between(vs)
+    remark(vs)
+    marked = [i for i, v in enumerate(vs) if v.fixed]
+    H, b, offsets = gn.assemble(dims, graphs.spec_inputs(k, shape, vs, es))
+    A_spec, rhs_spec, fixed_idx = gn.reduced_system(H, b, offsets, dims, marked)
+    before = [v.pose.copy() for v in vs]
+    n_before = len(ghost.solver_calls)
+    with common.counting_spsolve(k, ghost), common.patched(k.r.Graph, calc_chi2=cut):
+        g.optimize(tol=0, max_iter=1, fix_first_pose=False, verbose=False)
+    k.check(len(ghost.solver_calls) == n_before + 1, "one solve in the call under test")
+    A, rhs, dx = ghost.solver_calls[-1]
+    A, rhs = k.dense(A), k.dense(rhs)
+    N = sum(dims)
+    k.system_equiv([[A[i, j] for j in range(N)] for i in range(N)], [rhs[i] for i in range(N)], A_spec, rhs_spec, [dx[i] for i in range(N)],
+                   "system of this call <=> reduced system for the vertices marked fixed at the time of the call", fixed_idx=fixed_idx)
+    for p_, v in enumerate(vs):
+        k.check(v.fixed == (p_ in marked), "optimize(fix_first_pose=False) leaves the mark of vertex %d as it was" % p_, (p_, v.fixed))
+        if p_ in marked:
+            k.same(v.pose.to_array(), before[p_].to_array(), "marked vertex %d did not move" % p_)
+        else:
+            k.eq(v.pose.to_array(), (before[p_] + k.np.array([dx[offsets[p_] + i] for i in range(dims[p_])])).to_array(), "unmarked vertex %d moved by its slice of dx" % p_)
+
+
+
+hist_shape = {"vertices": [(0, "R2", False), (1, "R2", False), (2, "R2", False)], "edges": [("cut", (0, 1), 2), ("cut", (1, 2), 2), ("cut", (2, 0), 2)],
+              "fix_first_pose": False, "idset": 0}
+
+
 def obligations(r, tier, seed):
     obs = []
     for shape in graphs.family(tier, seed, well_posed_only=True):
@@ -84,6 +125,26 @@ def obligations(r, tier, seed):
         obs.append(Ob("C03/gauss-newton-step/%s" % shape["name"], ob, scope="shape-bounded", bound="shape " + shape["name"],
                       funcs=FUNCS, solver="constrained", light=not has_se3(shape), tags=("real-edges",) if real else (),
                       eager=(real and has_se3(shape))))
+
+    # ---- histories: the step of a LATER optimize() call on the same Graph object is the Gauss-Newton step for the vertices marked
+    #      fixed at that moment (nothing about the linear system survives from an earlier call)
+    def set_marks(*marked):
+        def remark(vs):
+            for p, v in enumerate(vs):
+                v.fixed = p in marked
+        return remark
+    histories = [
+        ("fixed-set-kept", {"fix_first_pose": True}, lambda vs: None),
+        ("fixed-set-grows", {"fix_first_pose": True}, set_marks(0, 1)),
+        ("fixed-set-moves", {"fix_first_pose": True}, set_marks(2)),
+        ("fixed-set-shrinks", [({"fix_first_pose": True}, set_marks(0, 1)), ({"fix_first_pose": False}, None)], set_marks(0)),
+        ("fixed-set-grows-then-moves", [({"fix_first_pose": True}, set_marks(0, 2)), ({"fix_first_pose": False}, None)], set_marks(1)),
+    ]
+    for name, first, remark in histories:
+        def hist(k, first=first, remark=remark):
+            second_call_system(k, hist_shape, first, remark)
+        obs.append(Ob("C03/history/%s" % name, hist, scope="shape-bounded", bound="3-vertex R2 cycle of cut edges, %d earlier call(s)" % (1 if isinstance(first, dict) else len(first)),
+                      funcs=FUNCS, solver="constrained", light=True))
 
     # ---- internal: BaseEdge.calc_chi2_gradient_hessian, arity 1..3, every tuple of pose types (complete for custom edges)
     import itertools
